@@ -13,7 +13,7 @@ use signal_hook::iterator::backend::{Handle, PollResult, SignalDelivery, SignalI
 use signal_hook::iterator::exfiltrator::origin::Origin;
 use signal_hook::iterator::exfiltrator::{Exfiltrator, SignalOnly, WithOrigin, WithRawSiginfo};
 use signal_hook::iterator::SignalsInfo;
-use signal_hook::low_level::siginfo::{Cause, Sent};
+use signal_hook::low_level::siginfo::{Cause, Chld, Sent};
 
 use crate::driver::RunSpec;
 use crate::props::*;
@@ -27,7 +27,7 @@ pub const ITER_REAL: &[&str] = &[
 pub const ITER_STUB: &[&str] = &[
     "thread scheduling (simulator baton)",
     "asynchronous signal arrival (direct call of the kernel-reported disposition at a chosen scheduling point, incl. nested on the consumer)",
-    "the async reactor behind poll_signal's readiness callback: a stub doing a real non-blocking 1-byte read and otherwise arming a wake-up on the descriptor (7/8 of the runs); 1/8 of the C09/C11 runs drive the REAL signal-hook-tokio Stream on a real current-thread tokio runtime polled by hand, and 1/64 of the C11 runs are a sequential conformance scenario of the REAL signal-hook-async-std Stream on async-io",
+    "the async reactor behind poll_signal's readiness callback: a stub doing a real non-blocking 1-byte read and otherwise arming a wake-up on the descriptor (7/8 of the runs); 1/8 of the C09 and 1/4 of the C11 runs drive the REAL signal-hook-tokio Stream on a real current-thread tokio runtime polled by hand (in half of them a second simulated thread turns the I/O driver at arbitrary instants), and 1/64 of the C11 runs are a sequential conformance scenario of the REAL signal-hook-async-std Stream on async-io",
 ];
 
 pub const PROPS: &[Prop] = &[
@@ -45,10 +45,12 @@ pub const PROPS: &[Prop] = &[
             (E_ITER_YIELDS, "values_yielded"),
             (E_ITER_ADD_RACE, "add_signal_overlapped_a_delivery"),
             (C_WAKE_EAGAIN_ALIAS, "wake_found_pipe_full"),
+            (E_ITER_FULL_PIPE, "fault:self_pipe_full_at_start"),
+            (E_ITER_REACTOR_TURNS, "fault:reactor_turned_by_another_thread"),
         ],
         real: ITER_REAL,
         stub: ITER_STUB,
-        assumptions: &["EINTR from the blocking read is not injected (would need interposing read(2))"],
+        assumptions: &["EINTR is injected only into recv() calls that could have slept (blocking descriptor, no MSG_DONTWAIT), at most twice in a row"],
     },
     Prop {
         id: "C10",
@@ -194,17 +196,37 @@ impl Out for Origin {
     fn tag(&self) -> Option<u64> {
         None
     }
-    fn faithful(&self, _d: &DeliveryRec) -> Result<(), String> {
-        let pid = unsafe { libc::getpid() };
-        let uid = unsafe { libc::getuid() };
-        match &self.process {
-            Some(p) if p.pid == pid && p.uid == uid => {}
-            other => return Err(format!("origin process {:?} is not this process ({}, {})", other, pid, uid)),
+    fn faithful(&self, d: &DeliveryRec) -> Result<(), String> {
+        // independent reader of the delivery's raw siginfo (Linux layout: si_code at 8, si_pid at
+        // 16, si_uid at 20 for kill/sigqueue/tkill/mq and SIGCHLD records)
+        let rd = |o: usize| i32::from_ne_bytes([d.bytes[o], d.bytes[o + 1], d.bytes[o + 2], d.bytes[o + 3]]);
+        let (code, pid, uid) = (rd(8), rd(16), rd(20) as u32);
+        let want_cause = match code {
+            0x80 => Cause::Kernel,
+            0 => Cause::Sent(Sent::User),
+            -6 => Cause::Sent(Sent::TKill),
+            -1 => Cause::Sent(Sent::Queue),
+            -3 => Cause::Sent(Sent::MesgQ),
+            1 if d.sig == libc::SIGCHLD => Cause::Chld(Chld::Exited),
+            2 if d.sig == libc::SIGCHLD => Cause::Chld(Chld::Killed),
+            3 if d.sig == libc::SIGCHLD => Cause::Chld(Chld::Dumped),
+            4 if d.sig == libc::SIGCHLD => Cause::Chld(Chld::Trapped),
+            5 if d.sig == libc::SIGCHLD => Cause::Chld(Chld::Stopped),
+            6 if d.sig == libc::SIGCHLD => Cause::Chld(Chld::Continued),
+            _ => Cause::Unknown,
+        };
+        let want_process = !matches!(want_cause, Cause::Unknown | Cause::Kernel);
+        if self.signal != d.sig {
+            return Err(format!("origin signal {} is not the delivered signal {}", self.signal, d.sig));
         }
-        if self.cause != Cause::Sent(Sent::Queue) {
-            return Err(format!("origin cause {:?} is not Sent(Queue)", self.cause));
+        if self.cause != want_cause {
+            return Err(format!("origin cause {:?}, the delivery's si_code {} means {:?}", self.cause, code, want_cause));
         }
-        Ok(())
+        match (&self.process, want_process) {
+            (None, false) => Ok(()),
+            (Some(p), true) if p.pid == pid && p.uid == uid => Ok(()),
+            (other, _) => Err(format!("origin process {:?}; the delivery's siginfo (si_code {}) {}", other, code, if want_process { format!("names process ({}, {})", pid, uid) } else { "carries no process".to_string() })),
+        }
     }
 }
 
@@ -262,13 +284,21 @@ fn record_yield<O: Out>(o: &O) {
                 }
             }
         }
-    } else if let Err(e) = o.faithful(&DeliveryRec { sig, tag: 0, begin: 0, end: None, bytes: [0; 128], dispatched: true, woke: false }) {
-        if x.exf == 2 {
-            sim::count(E_ITER_RECORDS, 1);
-            sim::report("C10", "record-not-faithful", &format!("yielded origin of {}: {}", sig_name(sig), e), false);
-        }
     } else if x.exf == 2 {
+        // no per-delivery tag in an Origin: it must be what an independent reader extracts from
+        // the siginfo of at least one delivery of that signal that has begun
         sim::count(E_ITER_RECORDS, 1);
+        let mut first_err = None;
+        let ok = x.deliveries.iter().filter(|d| d.sig == sig).any(|d| match o.faithful(d) {
+            Ok(()) => true,
+            Err(e) => {
+                first_err.get_or_insert(e);
+                false
+            }
+        });
+        if !ok {
+            sim::report("C10", "record-not-faithful", &format!("yielded origin of {} matches no delivery of that signal: {}", sig_name(sig), first_err.unwrap_or_else(|| "there was no such delivery".to_string())), false);
+        }
     }
     x.yields.push(YieldRec { sig, tag: o.tag(), seq, tid: sim::tid() });
 }
@@ -285,7 +315,7 @@ fn do_delivery(sig: i32, nested: bool) {
         let x = w();
         x.seq += 1;
         idx = x.deliveries.len();
-        info = make_info(sig, idx as u64 + 1);
+        info = make_info_code(sig, idx as u64 + 1, SI_CODES[(idx * 5 + sig as usize) % SI_CODES.len()]);
         x.deliveries.push(DeliveryRec { sig, tag: idx as u64 + 1, begin: x.seq, end: None, bytes: info.0, dispatched: false, woke: false });
         x.wake_stack[sim::tid()].push((sim::my_wake_calls(), 0));
         x.in_flight += 1;
@@ -593,7 +623,7 @@ impl std::task::Wake for CountWake {
     }
 }
 
-fn consume_tokio<E>(rt: tokio::runtime::Runtime, mut st: signal_hook_tokio::SignalsInfo<E>, read_fd: i32)
+fn consume_tokio<E>(rt: std::sync::Arc<tokio::runtime::Runtime>, mut st: signal_hook_tokio::SignalsInfo<E>, read_fd: i32)
 where
     E: Exfiltrator,
     E::Output: Out,
@@ -897,9 +927,9 @@ fn do_rejected_add(h: &Handle) {
 }
 
 enum Inst {
-    TOnly(tokio::runtime::Runtime, signal_hook_tokio::SignalsInfo<SignalOnly>, i32),
-    TRaw(tokio::runtime::Runtime, signal_hook_tokio::SignalsInfo<WithRawSiginfo>, i32),
-    TOrigin(tokio::runtime::Runtime, signal_hook_tokio::SignalsInfo<WithOrigin>, i32),
+    TOnly(std::sync::Arc<tokio::runtime::Runtime>, signal_hook_tokio::SignalsInfo<SignalOnly>, i32),
+    TRaw(std::sync::Arc<tokio::runtime::Runtime>, signal_hook_tokio::SignalsInfo<WithRawSiginfo>, i32),
+    TOrigin(std::sync::Arc<tokio::runtime::Runtime>, signal_hook_tokio::SignalsInfo<WithOrigin>, i32),
     SOnly(SignalsInfo<SignalOnly>),
     SRaw(SignalsInfo<WithRawSiginfo>),
     SOrigin(SignalsInfo<WithOrigin>),
@@ -943,7 +973,7 @@ pub fn run(spec: &RunSpec) -> ! {
 
     // ---- scenario
     // a slice of the C09-C11 runs drives the real async adapters instead of the stub reactor
-    let adapter_tokio = (prop == "C11" || prop == "C09" || prop == "C03") && spec.run % 8 == 7;
+    let adapter_tokio = ((prop == "C11" || prop == "C09" || prop == "C03") && spec.run % 8 == 7) || (prop == "C11" && spec.run % 8 == 3);
     if prop == "C11" && spec.run % 64 == 6 {
         w().watched.push((libc::SIGUSR1, 0, Some(0)));
         w().consumer_tid = 0;
@@ -962,16 +992,25 @@ pub fn run(spec: &RunSpec) -> ! {
     // C12's concurrent slice needs the harness-owned pipe (clean-up probe)
     let mode = if prop == "C12" || prop == "C01" { [Mode::Pending, Mode::Poll][(spec.run / 8 % 2) as usize] } else { mode };
     let exf = sim::work(3) as u8;
-    let mut pool: Vec<i32> = SIGS.to_vec();
+    // every fourth run draws from the edges of the signal-number range (lowest, highest classic,
+    // first and last real-time signal), where table bounds live
+    let mut pool: Vec<i32> = if sim::work(4) == 0 { vec![libc::SIGHUP, libc::SIGSYS, libc::SIGRTMIN(), libc::SIGRTMAX() - 1, libc::SIGRTMAX(), libc::SIGUSR1] } else { SIGS.to_vec() };
     let nw = 1 + sim::work(2) as usize;
     let mut initial = Vec::new();
     for _ in 0..nw {
         let i = sim::work(pool.len() as u32) as usize;
         initial.push(pool.remove(i));
     }
-    let added: Option<i32> = if sim::work(3) == 0 { Some(pool.remove(sim::work(pool.len() as u32) as usize)) } else { None };
+    // (C11 quantifies over close() racing everything a handle can do: more add_signal there)
+    let added: Option<i32> = if sim::work(3) < (if prop == "C11" { 2 } else { 1 }) { Some(pool.remove(sim::work(pool.len() as u32) as usize)) } else { None };
     let unwatched: Option<i32> = if sim::work(3) == 0 { Some(pool.remove(sim::work(pool.len() as u32) as usize)) } else { None };
     let ndel = 1 + sim::work(2) as usize;
+    // the list handed to the constructor may name a signal twice (documented: a no-op)
+    let mut ctor_list = initial.clone();
+    if sim::work(6) == 0 {
+        let d = initial[sim::work(initial.len() as u32) as usize];
+        ctor_list.insert(sim::work(ctor_list.len() as u32 + 1) as usize, d);
+    }
     let mut all: Vec<i32> = initial.clone();
     if let Some(a) = added {
         all.push(a);
@@ -992,6 +1031,8 @@ pub fn run(spec: &RunSpec) -> ! {
     // close (and the drop of the instance that follows) while deliveries are still running
     let early_close = (prop == "C11" && sim::work(3) != 0) || ((prop == "C03" || prop == "C01") && sim::work(2) == 0);
     let prefill = sim::work(4);
+    let full_pipe = mode != Mode::Tokio && sim::work(8) == 0;
+    let reactor_thread = sim::work(2) == 0;
     let policy = match sim::work(8) {
         0 | 1 => Policy::Uniform,
         2 => Policy::Sticky(5),
@@ -1055,17 +1096,24 @@ pub fn run(spec: &RunSpec) -> ! {
     // the consumer's calls (wait/pending/forever/poll) never panic on a correct tree; the only
     // panics reachable from them are the channel's internal expects
     sim::set_thread_panic_prop("C08");
+    // ... and wait()/forever() giving up on an error of the self-pipe read ("Unexpected error"):
+    // the consumer is gone and never obtains the signals delivered from then on
+    sim::add_thread_panic_rule("Unexpected error", "C09");
+    // fault at the system-call seam: the blocking self-pipe read is interrupted (EINTR) now and then
+    sim::set_recv_eintr_pct([0, 0, 10, 30][sim::work(4) as usize]);
 
     // ---- set-up (thread 0, sequential)
     if let Some(u) = unwatched {
         unsafe { signal_hook_registry::register(u, || ()).expect("register unwatched") };
     }
     let with_pipe = matches!(mode, Mode::Pending | Mode::Poll);
+    let mut tokio_rt: Option<std::sync::Arc<tokio::runtime::Runtime>> = None;
     let inst: Inst = if mode == Mode::Tokio {
         let rt = {
             let _g = ShimGuard::new();
-            tokio::runtime::Builder::new_current_thread().enable_io().build().expect("tokio runtime")
+            std::sync::Arc::new(tokio::runtime::Builder::new_current_thread().enable_io().build().expect("tokio runtime"))
         };
+        tokio_rt = Some(rt.clone());
         // the adapter's socket pair gets the two lowest free descriptor numbers: learn them
         let (a, b) = UnixStream::pair().expect("socketpair");
         let read_fd = a.as_raw_fd();
@@ -1075,17 +1123,17 @@ pub fn run(spec: &RunSpec) -> ! {
         let _e = rt.enter();
         let i = match exf {
             0 => {
-                let s = signal_hook_tokio::SignalsInfo::<SignalOnly>::new(initial.iter()).expect("tokio Signals");
+                let s = signal_hook_tokio::SignalsInfo::<SignalOnly>::new(ctor_list.iter()).expect("tokio Signals");
                 drop(_e);
                 Inst::TOnly(rt, s, read_fd)
             }
             1 => {
-                let s = signal_hook_tokio::SignalsInfo::<WithRawSiginfo>::new(initial.iter()).expect("tokio Signals");
+                let s = signal_hook_tokio::SignalsInfo::<WithRawSiginfo>::new(ctor_list.iter()).expect("tokio Signals");
                 drop(_e);
                 Inst::TRaw(rt, s, read_fd)
             }
             _ => {
-                let s = signal_hook_tokio::SignalsInfo::<WithOrigin>::new(initial.iter()).expect("tokio Signals");
+                let s = signal_hook_tokio::SignalsInfo::<WithOrigin>::new(ctor_list.iter()).expect("tokio Signals");
                 drop(_e);
                 Inst::TOrigin(rt, s, read_fd)
             }
@@ -1098,18 +1146,44 @@ pub fn run(spec: &RunSpec) -> ! {
         for _ in 0..prefill {
             unsafe { libc::send(wr.as_raw_fd(), b"P".as_ptr() as *const _, 1, libc::MSG_DONTWAIT) };
         }
+        if full_pipe {
+            // fault: the self-pipe is completely full when the deliveries start (a consumer that
+            // has not been scheduled for a long time)
+            let _g = ShimGuard::new();
+            fill_fd(wr.as_raw_fd());
+            sim::count(E_ITER_FULL_PIPE, 1);
+        }
         w().read_fd = rd.as_raw_fd();
         match exf {
-            0 => Inst::DOnly(SignalDelivery::with_pipe(rd, wr, SignalOnly::default(), initial.iter()).expect("with_pipe")),
-            1 => Inst::DRaw(SignalDelivery::with_pipe(rd, wr, WithRawSiginfo::default(), initial.iter()).expect("with_pipe")),
-            _ => Inst::DOrigin(SignalDelivery::with_pipe(rd, wr, WithOrigin::default(), initial.iter()).expect("with_pipe")),
+            0 => Inst::DOnly(SignalDelivery::with_pipe(rd, wr, SignalOnly::default(), ctor_list.iter()).expect("with_pipe")),
+            1 => Inst::DRaw(SignalDelivery::with_pipe(rd, wr, WithRawSiginfo::default(), ctor_list.iter()).expect("with_pipe")),
+            _ => Inst::DOrigin(SignalDelivery::with_pipe(rd, wr, WithOrigin::default(), ctor_list.iter()).expect("with_pipe")),
         }
     } else {
-        match exf {
-            0 => Inst::SOnly(SignalsInfo::<SignalOnly>::new(initial.iter()).expect("Signals::new")),
-            1 => Inst::SRaw(SignalsInfo::<WithRawSiginfo>::new(initial.iter()).expect("Signals::new")),
-            _ => Inst::SOrigin(SignalsInfo::<WithOrigin>::new(initial.iter()).expect("Signals::new")),
+        // the instance's socket pair gets the two lowest free descriptor numbers: learn them
+        let (a, b) = UnixStream::pair().expect("socketpair");
+        let (guess_rd, guess_wr) = (a.as_raw_fd(), b.as_raw_fd());
+        drop(a);
+        drop(b);
+        let i = match exf {
+            0 => Inst::SOnly(SignalsInfo::<SignalOnly>::new(ctor_list.iter()).expect("Signals::new")),
+            1 => Inst::SRaw(SignalsInfo::<WithRawSiginfo>::new(ctor_list.iter()).expect("Signals::new")),
+            _ => Inst::SOrigin(SignalsInfo::<WithOrigin>::new(ctor_list.iter()).expect("Signals::new")),
+        };
+        if full_pipe {
+            let _g = ShimGuard::new();
+            // only if the guess is right: the two numbers are a connected pair, wr -> rd
+            let mut p = libc::pollfd { fd: guess_rd, events: libc::POLLIN, revents: 0 };
+            let empty_before = unsafe { libc::poll(&mut p, 1, 0) } == 0;
+            let sent = unsafe { libc::send(guess_wr, b"P".as_ptr() as *const _, 1, libc::MSG_DONTWAIT | libc::MSG_NOSIGNAL) } == 1;
+            let mut p = libc::pollfd { fd: guess_rd, events: libc::POLLIN, revents: 0 };
+            let readable_after = unsafe { libc::poll(&mut p, 1, 0) } == 1 && p.revents & libc::POLLIN != 0;
+            if empty_before && sent && readable_after {
+                fill_fd(guess_wr);
+                sim::count(E_ITER_FULL_PIPE, 1);
+            }
         }
+        i
     };
     let handle: Handle = match &inst {
         Inst::TOnly(_, s, _) => s.handle(),
@@ -1125,6 +1199,7 @@ pub fn run(spec: &RunSpec) -> ! {
     sim::set_injector(injector());
 
     // ---- threads
+    let ndel_planned = dels.len();
     let consumer = sim::spawn("consumer", move || match inst {
         Inst::TOnly(rt, s, fd) => consume_tokio(rt, s, fd),
         Inst::TRaw(rt, s, fd) => consume_tokio(rt, s, fd),
@@ -1137,7 +1212,30 @@ pub fn run(spec: &RunSpec) -> ! {
         Inst::DOrigin(d) => consume_delivery(mode, d),
     });
     w().consumer_tid = consumer;
+    sim::set_pipe_consumer(consumer);
     let mut tids = Vec::new();
+    if let Some(rt) = tokio_rt.take() {
+        // fault: the I/O driver is turned by another thread (as in a multi-threaded runtime, or
+        // when the stream is consumed by a foreign executor) at arbitrary instants, also in the
+        // middle of the consumer's poll_next
+        let planned = 3 + ndel_planned + concurrent_add as usize + (nclosers - 1);
+        if reactor_thread && planned < sim::MAX_THREADS {
+            let turns = 2 + sim::work(11);
+            tids.push(sim::spawn("reactor", move || {
+                for _ in 0..turns {
+                    sim::sp_user();
+                    let _g = ShimGuard::new();
+                    rt.block_on(tokio::task::yield_now());
+                    sim::count(E_ITER_REACTOR_TURNS, 1);
+                }
+                let _g = ShimGuard::new();
+                drop(rt);
+            }));
+        } else {
+            let _g = ShimGuard::new();
+            drop(rt);
+        }
+    }
     for d in dels.into_iter() {
         tids.push(sim::spawn("deliverer", move || {
             for s in d.iter() {
@@ -1172,8 +1270,10 @@ pub fn run(spec: &RunSpec) -> ! {
     });
     for k in 1..nclosers {
         let hk = handle.clone();
+        // an extra closer acts early, or at any moment of the other threads' (long) calls
+        let delay = if sim::work(2) == 0 { k as u32 * 3 } else { sim::work(160) };
         tids.push(sim::spawn("closer", move || {
-            for _ in 0..(k * 3) {
+            for _ in 0..delay {
                 sim::sp_user();
             }
             if !early_close {
